@@ -39,6 +39,13 @@ func (r *RIBModule) getManager() *Thread {
 }
 
 func (r *RIBModule) handleIncomingInterest(interest *spec.Interest, pitToken []byte, inFace uint64) {
+	// Only allow from /localhost, and from /localhop if that is enabled
+	if !r.manager.localPrefix.IsPrefix(interest.NameV) &&
+		!(enableLocalhopManagement && r.manager.nonLocalPrefix.IsPrefix(interest.NameV)) {
+		core.LogWarn(r, "Received RIB management Interest from non-local source - DROP")
+		return
+	}
+
 	// Dispatch by verb
 	verb := interest.NameV[r.manager.prefixLength()+1].String()
 	switch verb {
